@@ -52,7 +52,8 @@ func init() {
 		Run: runENTRYKEY})
 	Register(&Rule{ID: "KEYEQ", Props: []string{"C06"}, Min: 1,
 		Doc: "in the diff, reflect.DeepEqual decides only whether the two sides' values differ: its operands are the old and the new Value, never a " +
-			"key or a whole entry (key equality is the comparator's business).",
+			"key or a whole entry (key equality is the comparator's business); and it alone decides: after the comparator has answered, nothing but its result " +
+			"decides whether the values are compared, no dominating condition reads an entry's value, and where DeepEqual answers false both value cells of the entry callback are stored on every successful path (none where it answers true).",
 		Run: runKEYEQ})
 	Register(&Rule{ID: "EXPANDALL", Props: []string{"C06", "C07"}, Min: 2,
 		Doc: "a link item that the diff step consumes (links not equal, item not pushed back) always has something pushed onto the stack of its " +
@@ -3659,6 +3660,9 @@ func runKEYEQ(c *Ctx) {
 			}
 			if !bad {
 				c.OK(pos, "reflect.DeepEqual(old value, new value) in "+ir.FuncName(fn), "compares exactly the two sides' values", false)
+			}
+			if call, isCall := ci.(*ssa.Call); isCall {
+				keyeqControl(c, S, call) // second clause (r_keyeqctl.go): DeepEqual alone decides `changed`
 			}
 		}
 	}
